@@ -47,6 +47,8 @@ func (s Step) tla() string {
 		return fmt.Sprintf(`[op |-> "srv", v |-> %d, mode |-> "%s"]`, s.V, s.Mode)
 	case "age":
 		return `[op |-> "age"]`
+	case "losesum":
+		return `[op |-> "losesum"]`
 	}
 	fl := make([]string, len(s.Flags))
 	for i, f := range s.Flags {
@@ -171,6 +173,16 @@ func Execute(h *History) error {
 			for _, f := range files {
 				os.WriteFile(f, []byte(time.Now().UTC().Add(-2*time.Hour).Format(time.RFC3339)), 0o644)
 			}
+		case "losesum":
+			// the stored checksum is lost: deleted (even steps) or truncated (odd steps); the cached copy stays
+			files, _ := filepath.Glob(filepath.Join(proj, ".task", "remote", "*.checksum"))
+			for _, f := range files {
+				if i%2 == 0 {
+					os.Remove(f)
+				} else {
+					os.WriteFile(f, nil, 0o644)
+				}
+			}
 		case "inv":
 			args := []string{"r:hello"}
 			for _, f := range s.Flags {
@@ -294,6 +306,7 @@ func Systematic() []History {
 			add(inv("insecure", "yes"), sv, inv(fs...))
 			add(inv("insecure", "yes"), sv, Step{Op: "age"}, inv(fs...))
 			add(inv("insecure", "yes", "expiry"), sv, inv(fs...), inv("insecure"))
+			add(inv("insecure", "yes"), sv, Step{Op: "losesum"}, inv(fs...), inv("insecure", "offline"))
 		}
 	}
 	return hs
@@ -312,6 +325,9 @@ func Random(r *rand.Rand, n, maxLen int) []History {
 				steps = append(steps, srv(1+r.Intn(2), modes[r.Intn(len(modes))]))
 			case 1:
 				steps = append(steps, Step{Op: "age"})
+				if r.Intn(3) == 0 {
+					steps = append(steps, Step{Op: "losesum"})
+				}
 			default:
 				steps = append(steps, inv(fsets[r.Intn(len(fsets))]...))
 			}
@@ -332,6 +348,8 @@ func Pretty(h History) string {
 			p = append(p, fmt.Sprintf("server(v%d,%s)", s.V, s.Mode))
 		case "age":
 			p = append(p, "age-cache")
+		case "losesum":
+			p = append(p, "lose-checksum")
 		default:
 			p = append(p, fmt.Sprintf("task%v→exit%d,ran-v%d", s.Flags, s.Exit, s.Ran))
 		}
